@@ -1,8 +1,13 @@
 #!/bin/bash
-# usage: try_seed.sh <patch.diff> <check ids...>   -- applies a seeded change to /repo, runs checks, undoes it
+# usage: try_seed.sh <patch.diff> <check ids...>
+# Runs checks against a scratch copy of /repo's working tree with the seeded change applied
+# (XCM_REPO points the checks at the copy; /repo itself is not touched).
 P=$1; shift
-cd /repo || exit 3
-if ! git apply --check "$P" 2>/dev/null; then echo "PATCH DOES NOT APPLY (3-way try)"; git apply -3 "$P" || { git checkout -- . ; exit 3; }; else git apply "$P"; fi
+S=/tmp/seedscratch.$$
+rm -rf $S; mkdir -p $S
+rsync -a --exclude .git --exclude '*.o' --exclude '*.lo' --exclude '*.la' --exclude .libs --exclude xcmtest --exclude autom4te.cache --exclude test --exclude python --exclude doc /repo/ $S/
+cd $S
+if ! patch -p1 -s -F3 --no-backup-if-mismatch < "$P" > /tmp/try_seed.patch.log 2>&1; then echo "PATCH DOES NOT APPLY:"; cat /tmp/try_seed.patch.log | head -5; rm -rf $S; exit 3; fi
 cd /verif
-for c in "$@"; do ./check $c > /tmp/try_seed.$c.log 2>&1; rc=$?; echo "== $c rc=$rc"; grep -E "violation|VIOLATION|BROKEN" /tmp/try_seed.$c.log | cut -c1-260 | head -8; done
-git -C /repo checkout -- . ; git -C /repo status --short | grep -v "^??" | head -3
+for c in "$@"; do XCM_REPO=$S ./check $c > /tmp/try_seed.$c.log 2>&1; rc=$?; echo "== $c rc=$rc"; grep -E "^  violation|^VIOLATION|BROKEN|KNOWN" /tmp/try_seed.$c.log | cut -c1-320 | head -8; done
+rm -rf $S
